@@ -203,7 +203,7 @@ def lifeScript (l : VRing Int) (n : Nat) : List Char → Nat → Option (VRing I
     | 'o' | 'O' => (l.pop 0).bind fun l' => lifeScript l' n rest k
     | 'a' => lifeScript l.pushSelf n rest k
     | 'e' => l.emplaceSelf.bind fun l' => lifeScript l' n rest k   -- emplace(head_place())
-    | 'x' => (l.pushThrow 0).bind fun l' => lifeScript l' n rest k -- push whose copy constructor throws (caught by the caller)
+    | 'x' | 'X' => (l.pushThrow 0).bind fun l' => lifeScript l' n rest k -- push whose copy constructor throws (caught by the caller)
     | 'c' => (VRing.clear 0 (l.t.r.size.toNat + 1) l).bind fun l' => lifeScript l' n rest k
     | 'z' | 'M' => lifeScript (VRing.resize 0 l n) n rest k   -- M: the elements die with the moved-to object
     | 'y' => lifeScript (VRing.copyAndDrop 0 l) n rest k
